@@ -2106,6 +2106,9 @@ def compile_import(compiler, expr, root, is_lazy, entries):
         else:
             node = asty.ImportFrom
             names = []
+            if not assignments:
+                raise compiler._syntax_error(
+                    module, "`import` needs at least one name to import from a module")
             for k, v in assignments:
                 compiler.scope.define(mangle(v))
                 names.append(asty.alias(
